@@ -358,6 +358,8 @@ type symWalker struct {
 	OnCall   func(w *symWalker, call *ast.CallExpr, fn types.Object, args []*Sym, result *Sym)
 	OnStore  func(w *symWalker, at ast.Node, target *Sym, key *Sym, val *Sym)
 	OnReturn func(w *symWalker, ret *ast.ReturnStmt, results []*Sym)
+	// OnStruct is called for every struct composite literal that is evaluated
+	OnStruct func(w *symWalker, lit *ast.CompositeLit, val *Sym)
 	// OnText is called for every outermost string concatenation / Sprintf with a constant format
 	OnText    func(w *symWalker, at ast.Expr, text *Sym)
 	textDepth int
@@ -562,7 +564,7 @@ func (p *Prog) SymWalk(pk *packages.Package, fd *ast.FuncDecl, proto *symWalker,
 	w := &symWalker{p: p, pk: pk, info: pk.TypesInfo, fd: fd, env: map[types.Object]*Sym{}, stack: map[types.Object]bool{}}
 	if proto != nil {
 		w.Inline, w.OnCall, w.OnStore, w.OnReturn, w.OnText, w.Assume = proto.Inline, proto.OnCall, proto.OnStore, proto.OnReturn, proto.OnText, proto.Assume
-		w.AssumeFn, w.OnSend = proto.AssumeFn, proto.OnSend
+		w.AssumeFn, w.OnSend, w.OnStruct = proto.AssumeFn, proto.OnSend, proto.OnStruct
 		w.inheritedLeft = proto.inheritedLeft
 		w.inheritedStopped = proto.inheritedStopped
 		w.feas = copyFeas(proto.feas)
@@ -974,7 +976,11 @@ func (w *symWalker) eval1(e ast.Expr) *Sym {
 		}
 		return &Sym{K: symCall, Fn: "slice", Parts: []*Sym{base, low, high}, Expr: e}
 	case *ast.CompositeLit:
-		return w.born(w.composite(x))
+		val := w.born(w.composite(x))
+		if w.OnStruct != nil && val != nil && val.K == symStruct {
+			w.OnStruct(w, x, val)
+		}
+		return val
 	case *ast.FuncLit:
 		return &Sym{K: symFuncLit, Lit: x, Env: w.env, Expr: e}
 	case *ast.CallExpr:
@@ -1235,7 +1241,7 @@ func (w *symWalker) call(x *ast.CallExpr) *Sym {
 			if fdecl == nil {
 				fdecl = &ast.FuncDecl{Name: ast.NewIdent("func-literal"), Type: ftype, Body: fbody}
 			}
-			proto := &symWalker{Inline: w.Inline, OnCall: w.OnCall, OnStore: w.OnStore, OnText: w.OnText, OnReturn: nil, Assume: w.Assume, AssumeFn: w.AssumeFn, OnSend: w.OnSend, conds: w.conds, loops: w.loops, depth: w.depth + 1, stack: w.stack}
+			proto := &symWalker{Inline: w.Inline, OnCall: w.OnCall, OnStore: w.OnStore, OnText: w.OnText, OnReturn: nil, Assume: w.Assume, AssumeFn: w.AssumeFn, OnSend: w.OnSend, OnStruct: w.OnStruct, conds: w.conds, loops: w.loops, depth: w.depth + 1, stack: w.stack}
 			proto.inheritedLeft = w.leftSoFar()
 			proto.inheritedStopped = w.stoppedSoFar()
 			sub := w.p.SymWalk(fpk, fdecl, proto, bind)
